@@ -65,7 +65,7 @@ theorem encDate_some (d : YMD) (h : d.y < 10000 ∧ d.m < 100 ∧ d.d < 100) :
   rw [fmt4_eq _ h.1, fmt2_eq _ h.2.1, fmt2_eq _ h.2.2]
   have := bcd_encode_groups [d.y / 100, d.y % 100, d.m, d.d]
   simp only [List.flatMap_cons, List.flatMap_nil, List.append_nil, List.map_cons, List.map_nil, List.append_assoc] at this
-  simpa [bcdDate] using this
+  simp only [List.append_assoc]; rw [this]; simp [bcdDate, fitting]
 
 theorem encDateTime_some (d : YMDHMS)
     (h : d.y < 10000 ∧ d.mo < 100 ∧ d.d < 100 ∧ d.h < 100 ∧ d.mi < 100 ∧ d.s < 100) :
@@ -74,7 +74,7 @@ theorem encDateTime_some (d : YMDHMS)
   rw [fmt4_eq _ h.1, fmt2_eq _ h.2.1, fmt2_eq _ h.2.2.1, fmt2_eq _ h.2.2.2.1, fmt2_eq _ h.2.2.2.2.1, fmt2_eq _ h.2.2.2.2.2]
   have := bcd_encode_groups [d.y / 100, d.y % 100, d.mo, d.d, d.h, d.mi, d.s]
   simp only [List.flatMap_cons, List.flatMap_nil, List.append_nil, List.map_cons, List.map_nil, List.append_assoc] at this
-  simpa [bcdDateTime] using this
+  simp only [List.append_assoc]; rw [this]; simp [bcdDateTime, fitting]
 
 theorem encDateTime_none : encDateTime BCD.canonical none = some [0x00, 0x01, 0x01, 0x01, 0, 0, 0] := by
   decide
@@ -105,7 +105,7 @@ theorem encHHmm_eq (t : HM) (h : 0 ≤ t.h ∧ t.h < 100 ∧ 0 ≤ t.m ∧ t.m <
   rw [h1, h2]
   have := bcd_encode_groups [t.h.toNat, t.m.toNat]
   simp only [List.flatMap_cons, List.flatMap_nil, List.append_nil, List.map_cons, List.map_nil, List.append_assoc] at this
-  simpa using this
+  rw [this]; simp [fitting]
 
 theorem ofNat_mod (n : Nat) : UInt8.ofNat (n % 256) = UInt8.ofNat n := by
   apply UInt8.toNat_inj.1; simp [UInt8.toNat_ofNat']
